@@ -299,6 +299,9 @@ pub enum LOp {
     /// sleep past the session timeout and call cleanup
     Expire,
     Cleanup,
+    /// stay silent for three session timeouts while cleanup() is called every millisecond, as an
+    /// application loop does
+    ExpirePolled,
 }
 
 #[derive(Debug, Clone, Serialize, Deserialize)]
@@ -390,6 +393,24 @@ pub fn run_listen(c: &ListenCase) -> CaseResult {
                     mr.cleanup(t0() + Duration::from_millis(t));
                 }
             }
+            LOp::ExpirePolled => {
+                if c.session_timeout {
+                    let until = std::time::Instant::now() + Duration::from_millis(timeout_ms * 3 + 10);
+                    while std::time::Instant::now() < until {
+                        std::thread::sleep(Duration::from_millis(1));
+                        mr.cleanup(t0() + Duration::from_millis(t));
+                        t += 1;
+                    }
+                    let ks: Vec<usize> = live.iter().filter(|(_, v)| **v).map(|(k, _)| *k).collect();
+                    for k in ks {
+                        live.insert(k, false);
+                        expected.push((false, k));
+                        closed_once[k] = true;
+                    }
+                } else {
+                    mr.cleanup(t0() + Duration::from_millis(t));
+                }
+            }
             LOp::Cleanup => {
                 // cleanup without waiting: with a timeout configured a session may or may not have
                 // expired (wall clock); only used when no timeout is configured
@@ -443,6 +464,7 @@ pub fn listen_strategy() -> BoxedStrategy<ListenCase> {
         5 => (any::<u8>(), 1u8..6).prop_map(|(s, n)| LOp::Push(s, n)),
         2 => any::<u8>().prop_map(LOp::Close),
         1 => Just(LOp::Expire),
+        1 => Just(LOp::ExpirePolled),
         1 => Just(LOp::Cleanup),
     ];
     (proptest::collection::vec((0usize..corpus::CORPUS_TOTAL, prop_oneof![Just(1u64), Just(2), Just(9)], 0usize..4), 1..4), proptest::collection::vec(op, 1..14), prop_oneof![3 => Just(false), 1 => Just(true)])
@@ -489,7 +511,7 @@ pub fn run(eng: &mut Engine) {
     eng.generated(
         PartCfg::new(
             "listener",
-            "1-3 sessions; operations push-n-packets / close-session packet / expire (sleep + cleanup) / cleanup, then drop; per (endpoint, TSI) the listener trace must be (open close)*, equal the model's creations and ends, and be closed after the drop; non-trivial = a session was closed and re-created; distinct by case",
+            "1-3 sessions; operations push-n-packets / close-session packet / expire (sleep + cleanup) / expire-polled (cleanup every millisecond during the silence) / cleanup, then drop; per (endpoint, TSI) the listener trace must be (open close)*, equal the model's creations and ends, and be closed after the drop; non-trivial = a session was closed and re-created; distinct by case",
             tier.pick(30_000, 600_000),
         ),
         listen_strategy,
